@@ -1,8 +1,9 @@
 CONFIG = {
     "id": "C02",
-    "coq_targets": ["Props/C02.v", "Model/TurnCheck.v"],
+    "coq_targets": ["Gen/FormulasTurn.v", "Proofs/FormulasTurnProofs.v",
+                    "Props/C02.v", "Model/TurnCheck.v"],
     "prop_files": ["Props/C02.v"],
-    "gen": [],
+    "gen": ["FormulasTurn"],
     "components": [{
         "name": "turn", "modules": ["Base.NumOps", "Model.Turn", "Model.TurnCheck"],
         "check": "check_case", "monitor": "monitor_case", "model_out": "model_out",
@@ -15,18 +16,41 @@ CONFIG = {
             "speeds; amounts half from boundary values (0, exactly base gauge, negative, fractional, larger than the "
             "remaining gauge); also protocol violations (double start, reset without a turn, absent ids); "
             "distinct = distinct input term",
-    "trusted": ["sort.Stable is modelled by stable insertion sort (the stable sorted permutation of a strict weak order is unique)",
+    "trusted": [
+        "TRANSLATED from the Go source on every run and proved equal to the model for every number system and "
+        "every argument (Gen/FormulasTurn.v; Proofs/FormulasTurnProofs.v; theorems "
+        "C02_model_formulas_are_the_source, C02_StartTurn_is_the_source): BaseGauge, turnOrderHandler.av and Less, "
+        "manager.av, StartTurn's per-unit gauge decrement (int64(av * SPD)), clock update, cost reset and the "
+        "acting unit's zero gauge, ResetTurn's gauge (int64(BaseGauge * cost) floored at 0), SetGauge's truncated "
+        "floored gauge, the amounts of ModifyGaugeNormalized / ModifyGaugeAV / ModifyCurrentGaugeCost",
+        "still HAND-WRITTEN (correspondence only): the re-insertion position of SetGauge, move-to-end of "
+        "ResetTurn, AddTargets / RemoveTarget, the error paths, the emitted status lists; Stats(id).SPD() is the "
+        "model's speed table",
+        "translator (harness/cmd/go2coq formulas.go, formulas_specs.go): trusted are the Go front end "
+        "(go/packages, go/types, go/constant), the fixed whitelist and accessor tables (which Go field / method is "
+        "which model accessor), the statement translation listed at the top of formulas.go, and that lit N n d "
+        "(the correctly rounded quotient of two integers below 2^53) is the binary64 the Go compiler stores for "
+        "the literal n/d; the translator fails closed (unknown construct, added or missing assignment, changed "
+        "signature: go2coq exits 1 and the check reports a broken translator obligation)",
+        "for functions that mix effects and arithmetic only the whitelisted statements are translated (the "
+        "statements of one block that assign the named variables, their number fixed; every other assignment to "
+        "those variables or to the inputs must be whitelisted verbatim): the ORDER of effects around the "
+        "arithmetic (event emissions, service calls, which unit receives the energy) stays hand-written and is "
+        "tied by correspondence only","sort.Stable is modelled by stable insertion sort (the stable sorted permutation of a strict weak order is unique)",
                 "arithmetic clauses (gauges never negative after a turn start, elapsed AV >= 0, proportional shrink) are proved "
                 "for the model instantiated at the real numbers; the binary64 instance is executed and compared bit-exactly with "
                 "the Go code and the float-level monitor checks the same clauses on every implementation output"],
     "assumptions": ["speeds are positive and finite; unit ids are unique in the turn order"],
     "manifest": {
-        "level_text": "Kernel-checked theorems over an executable Gallina model of the turn manager (all histories of "
+        "level_text": "Translator tie (way 1): BaseGauge, the action value and its comparison, and the gauge / clock / cost arithmetic of the turn manager are regenerated from turn/turn.go and turn/modify.go on every run (go2coq FormulasTurn) and proved EQUAL to the model's definitions for all inputs; "
+                      "Kernel-checked theorems over an executable Gallina model of the turn manager (all histories of "
                       "operations and speed changes), binary64 instance compared bit-exactly with the real turn.Manager on "
                       "generated histories; a float-level monitor re-checks the property's clauses on the implementation's outputs.",
-        "level_note": "Coq kernel + stdlib real-number axioms for the R instance; sort.Stable contract; IEEE rounding gap between "
+        "level_note": "go2coq FormulasTurn translator + kernel-checked equalities generated = model; "
+                      "Coq kernel + stdlib real-number axioms for the R instance; sort.Stable contract; IEEE rounding gap between "
                       "the float and real instances is named in the evidence.",
-        "technique": "Coq proof (invariants over operation histories; NumOps model at float and R) + correspondence",
+        "technique": "source-to-Coq translation of the formulas with equality proofs + "
+                     "Coq proof (invariants over operation histories; NumOps model at float and R) + correspondence",
         "design_ref": "DESIGN.md section 7, C02",
     },
 }
